@@ -20,7 +20,7 @@ META = {
     'assumptions': ['Quot/FInt abstraction of scaled values in E1 runs, justified by L1/L1R',
                     'L1R/L3R: standard model of floating-point arithmetic, no overflow/underflow in the stated range; tolerance (1 + 2^-18) on "half a unit"',
                     'strings longer than their field are truncated (documented behaviour, C19)'],
-    'outside': ['a missing value given for a 1-bit field (FM-94 has none; the encoder writes 1)', 'compressed out-of-range values (the property restricts refusal to uncompressed data)', 'json.dumps / json.loads text round trip of floats',
+    'outside': ['a missing value given for a 1-bit field (FM-94 has none; the encoder writes 1)', 'refusal of out-of-range values in COMPRESSED data (the property restricts refusal to uncompressed data; what is checked there is that nothing is silently altered)', 'json.dumps / json.loads text round trip of floats',
                 'foreign compressed streams whose minimum + difference exceeds the element width (not valid FM-94 data)'],
     'trusted_base': ['CrossHair 0.0.110 / z3 5.1', 'cvc5 1.0.3 binary (QF_BVFP)', 'bitstring model (conformance-swept)', 'FM-94 reference'],
 }
@@ -51,6 +51,10 @@ def jobs(tier, seed):
                              'chunks': 4 if thorough else 1}, timeout=3200 if thorough else 250, core=not thorough, **e2))
     for t in sorted(REFUSAL_TEMPLATES):
         J.append(Job('refusal:' + t, 'harness.c03', 'h_refusal', {'template': t}, timeout=300, witnesses=['refused', 'written']))
+    for t in (('int7', 'ref5', 'scaled12', 'w201') if thorough else ('int7', 'ref5')):
+        J.append(Job('compressed-unaltered:' + t, 'harness.c03', 'h_compressed_unaltered', {'template': t, 'n_subsets': 3 if thorough else 2,
+                                                                                           'with_missing': True},
+                     timeout=3000 if thorough else 900, witnesses=['unaltered', 'refused'], core=not thorough))
     J.append(Job('refusal:diff225-marker', 'harness.c03', 'h_refusal', {'template': 'diff225', 'target_index': 4}, timeout=300,
                  witnesses=['refused', 'written']))
     fams = [f['name'] for f in families.VALUE_FAMILIES] + ['qa222', 'stat224', 'diff225', 'reuse-237']
